@@ -92,6 +92,8 @@ def search(ctx, n_theta, n_pts):
     for fam in FAMS:
         for it in range(n_theta):
             th = implbiv.sample_theta(rng, fam, edge=(it < 2))
+            if fam == 'gumbel' and it == 2:
+                th = 1.0                      # independence member (theta = 1 exactly): the shortcut branch
             c = implbiv.make(fam, th)
             y = rng.uniform(1e-4, 1 - 1e-4, n_pts)
             v = rng.uniform(1e-4, 1 - 1e-4, n_pts)
